@@ -1,16 +1,39 @@
 #!/usr/bin/env bash
 # Builds the overlay interpreter /verif/.venv (offline): python 3.12 of /venv + z3/cvc5/crosshair/deal/icontract
 # from the local wheelhouse + a .pth that exposes /venv's site-packages (pandas, numpy, reamber editable -> /repo).
+#
+# Safe under concurrent ./check runs: the health test is independent of the caller's environment (PYTHONPATH /
+# VERIF_REPO may point at a scratch copy of the repository that does not even import - that must never make this
+# script delete a healthy interpreter), the build is serialised by a lock, happens in a private directory and is
+# moved into place in one step.
 set -euo pipefail
 cd "$(dirname "$0")"
 V=.venv
-if [ -x "$V/bin/python" ] && "$V/bin/python" -c "import z3, pandas, reamber, jsonschema" >/dev/null 2>&1; then
+healthy() {
+  [ -x "$1/bin/python" ] && env -u PYTHONPATH -u PYTHONHOME "$1/bin/python" -c "import z3, pandas, numpy, jsonschema" >/dev/null 2>&1
+}
+if healthy "$V"; then
   exit 0
 fi
-rm -rf "$V"
-/venv/bin/python -m venv "$V"
-echo "import site; site.addsitedir('/venv/lib/python3.12/site-packages')" > "$V/lib/python3.12/site-packages/zz_repo.pth"
-PIP_NO_INDEX=1 "$V/bin/pip" install -q --no-index --find-links /opt/veriftools/wheels z3-solver cvc5 jsonschema >/dev/null
+exec 9>".venv.lock"
+flock 9
+if healthy "$V"; then   # somebody else built it while we waited for the lock
+  exit 0
+fi
+T=".venv.build.$$"
+rm -rf "$T"
+trap 'rm -rf "$T"' EXIT
+/venv/bin/python -m venv "$T"
+echo "import site; site.addsitedir('/venv/lib/python3.12/site-packages')" > "$T/lib/python3.12/site-packages/zz_repo.pth"
+PIP_NO_INDEX=1 "$T/bin/pip" install -q --no-index --find-links /opt/veriftools/wheels z3-solver cvc5 jsonschema >/dev/null
 # optional extras (bounded stand-ins only); failure to install them is not fatal
-PIP_NO_INDEX=1 "$V/bin/pip" install -q --no-index --find-links /opt/veriftools/wheels crosshair-tool deal icontract hypothesis >/dev/null 2>&1 || true
-"$V/bin/python" -c "import z3, pandas, reamber, jsonschema; print('overlay ok: z3', z3.get_version_string(), 'pandas', pandas.__version__)"
+PIP_NO_INDEX=1 "$T/bin/pip" install -q --no-index --find-links /opt/veriftools/wheels crosshair-tool deal icontract hypothesis >/dev/null 2>&1 || true
+# a venv is not relocatable through its scripts' shebangs, but `python -m ...` (all that ./check uses) is: fix the one
+# path that matters and move the directory into place atomically
+sed -i "s#$(pwd)/$T#$(pwd)/$V#g" "$T/pyvenv.cfg" "$T"/bin/activate* 2>/dev/null || true
+rm -rf "$V.old"
+[ -e "$V" ] && mv "$V" "$V.old"
+mv "$T" "$V"
+rm -rf "$V.old"
+trap - EXIT
+env -u PYTHONPATH "$V/bin/python" -c "import z3, pandas, reamber, jsonschema; print('overlay ok: z3', z3.get_version_string(), 'pandas', pandas.__version__)"
